@@ -151,7 +151,7 @@ def run(rep, tier, pool, variants=("shipped",)):
             rep.case(src, False)
             rep.count(f"{kind}:tokenizer-{o['skip']}")
             continue
-        if o.get("k") in ("hang", "crash", "worker-exc"):
+        if o.get("k") in ("hang", "crash", "worker-exc", "not-run"):
             rep.case(src, False)
             rep.count("infra:" + o["k"])
             continue
@@ -178,7 +178,8 @@ def run(rep, tier, pool, variants=("shipped",)):
             rep.known("KF-C08-lone-cr", f"lone CR: {o2.get('kind') if isinstance(o2, dict) else o2} on {short(src_min, 30)}")
             continue
         _ls = src_min.split("\n")
-        if isinstance(o2, dict) and o2.get("kind") == "newline-without-significant-token" and len(_ls) >= 2 and (not _ls[-1].strip() or _ls[-1].strip().startswith("#")) and _ls[-1] != "" and _ls[-2].rstrip("\r").endswith("\\"):
-            rep.known("KF-C08-continuation-into-final-comment", f"a backslash continuation runs into a final blank/comment line without newline: NEWLINE without a significant token: {short(src_min, 30)}")
+        _cont_into_blank = any(_ls[i].rstrip("\r").endswith("\\") and (not _ls[i + 1].strip() or _ls[i + 1].strip().startswith("#")) for i in range(len(_ls) - 1))
+        if isinstance(o2, dict) and o2.get("kind") == "newline-without-significant-token" and _cont_into_blank:
+            rep.known("KF-C08-continuation-into-final-comment", f"a backslash continuation runs into a blank/comment line: NEWLINE without a significant token: {short(src_min, 30)}")
             continue
         rep.violation(f"C08 {o.get('kind')}: {short(o2, 140)} on {short(src_min, 60)}", {"property": "C08", "input": src_min, "original_input": src if len(src) < 5000 else src[:5000], "observed": o2, "oracle": "tiling predicate vs source text"})
